@@ -90,7 +90,7 @@ ASSUMPTIONS = ["list-valued pre-grouping attributes may be given as lists or tup
                "what the caller does to its own objects between two calls (in-place edits, mutated results) reaches the model as the resulting "
                "template list (OTemplates); the model functions are pure, so every call equals its fresh evaluation by construction"]
 TESTED_NOT_PROVED = []
-LEVEL_TEXT = ("Machine-checked proof (Coq, 27 theorems in coq/props/C13.v, all closed under the global context). Generic part, for every list "
+LEVEL_TEXT = ("Machine-checked proof (Coq, 28 theorems in coq/props/C13.v, all closed under the global context). Generic part, for every list "
               "of items and every decidable test `iso` that is an equivalence, with an iso-invariant pre-grouping attribute as the code reads "
               "it: GraphCluster.iterative_cluster / fit (visited set, comparison with the first member only, attribute pre-filter) gives every "
               "item exactly one class and two items share a class IFF iso (C13_partition; clusters list = rule_to_cluster, a partition of the "
@@ -108,7 +108,8 @@ LEVEL_TEXT = ("Machine-checked proof (Coq, 27 theorems in coq/props/C13.v, all c
               "after every call, classes, template list AND the sequence of isomorphism tests (pairs handed to graph_isomorphism, in call order): "
               "C13_trace_projection (traced = untraced results), C13_lib_check_trace (exactly the same-attribute templates up to the first "
               "isomorphic one), C13_gc_trace (earlier vs later position with equal attribute, no pair twice, <= n(n-1)/2 tests), "
-              "C13_raw_matchers (attribute selection), C13_ctor_contract (constructor contract of both classes), C13_stepx_state. "
+              "C13_raw_matchers (attribute selection), C13_ctor_contract (constructor contract of both classes), C13_stepx_state, "
+              "C13_graph_isomorphism_options (None matchers / use_defaults of graph_morphism.graph_isomorphism). "
               "Model and code are compared after every call on every run.")
 LEVEL_NOTE = ("Trusted: Coq kernel + vm_compute; the hand-written model and encoders; networkx is_isomorphic returns the verdict of the verified "
               "enumerator (the generic theorems need only that it is an equivalence; monitored: classes compared after every call, oracle uses "
@@ -163,6 +164,9 @@ FIRST_ITEM_FREE = True      # /repo (round 4): GraphCluster normalises every att
 ATTR_KEY = "att"
 ATTR_KEY2 = "att2"
 DEF_CFG = {"names": ["element", "charge"], "defaults": ["*", 0], "edge": "order"}
+# ["iso", i, j, how]: which matchers the caller hands to graph_isomorphism -- (node_match given, edge_match given, use_defaults)
+_ISO_HOW = {"nm": (1, 1, 0), "defaults": (0, 0, 1), "none": (0, 0, 0), "nm_only": (1, 0, 0), "em_only": (0, 1, 0),
+            "nm_defaults": (1, 0, 1), "em_defaults": (0, 1, 1), "both_defaults": (1, 1, 1)}
 EXTRA_OPS = ("iso", "batch_dicts")            # stateless trailing calls (model: extra values after the history)
 CONTRACT_OPS = ("ctor", "backends")           # constructor / environment contract (oracle only)
 
@@ -519,14 +523,9 @@ class _World:
         if k == "iso":
             from synkit.Graph.Matcher.graph_morphism import graph_isomorphism
             g1, g2 = self.obj(op[1]), self.obj(op[2])
-            how = op[3]
-            if how == "nm":
-                nmf, emf = self.explicit_matchers() or (self.gc().nodeMatch, self.gc().edgeMatch)
-                vals = [g1, g2, nmf, emf, False]
-            elif how == "defaults":
-                vals = [g1, g2, None, None, True]
-            else:
-                vals = [g1, g2, None, None, False]
+            use_nm, use_em, use_def = _ISO_HOW[op[3]]
+            nmf, emf = self.explicit_matchers() or (self.gc().nodeMatch, self.gc().edgeMatch)
+            vals = [g1, g2, nmf if use_nm else None, emf if use_em else None, bool(use_def)]
             r = self._call(graph_isomorphism, ["graph_1", "graph_2", "node_match", "edge_match", "use_defaults"], vals,
                            {"node_match": None, "edge_match": None, "use_defaults": False})
             return (r if isinstance(r, bool) else ["not-a-bool", repr(r)[:40]]), [], False
@@ -700,8 +699,6 @@ def _in_domain(case):
                 return False
             if _flags(op).get("nokey") and case["attr_mode"] != "none" and not _const_side(case, ix):
                 return False
-            if k == "iso" and op[3] == "defaults" and _eff(case) != DEF_CFG:
-                return False
             if not FIT_HONOURS_OPTIONS and case.get("cfg") is not None and k == "fit" and _norm_cfg(case["cfg"]) != _norm_cfg(DEF_CFG):
                 # before the repair BatchCluster.fit's one-shot path built a default GraphCluster()
                 return False
@@ -794,14 +791,14 @@ def coq_case(case):
     if importlib.util.find_spec("mod") is not None:
         return None           # the contract ops of the model assume that the optional `mod` package is not installed
     cfg = _eff(case)
-    vals = list(cfg["defaults"])
+    vals = list(cfg["defaults"]) + list(DEF_CFG["defaults"])
     for it in case["items"]:
         for _, a in it["g"]["nodes"]:
             for v in a.values():
                 if _simple(v):
                     vals.append(v)
     I = G.Intern(vals)
-    NK, EK = G.Intern(list(cfg["names"])), G.Intern([cfg["edge"]])
+    NK, EK = G.Intern(list(cfg["names"]) + list(DEF_CFG["names"])), G.Intern([cfg["edge"], DEF_CFG["edge"]])
     mode = {"none": "ANone", "str": "AStr", "list": "AList", "mixed": "AMixed"}[case["attr_mode"]]
     pool = clist([_coq_item(i, it, case, I, NK, EK) for i, it in enumerate(case["items"])])
     ccfg = "{| cc_names := %s; cc_defs := %s; cc_edge := %s |}" % (
@@ -813,11 +810,14 @@ def coq_case(case):
     xs = []
     for o in extra:
         if o[0] == "iso":
-            xs.append("tbool (item_iso %s (cc_defs c) (pick pool %s) (pick pool %s))" % (cbool(o[3] != "none"), cnat(o[1]), cnat(o[2])))
+            use_nm, use_em, use_def = _ISO_HOW[o[3]]
+            xs.append("tbool (iso_call_pool c cdef %s %s %s rpool %s %s)" % (cbool(use_nm), cbool(use_em), cbool(use_def), cnat(o[1]), cnat(o[2])))
         else:
             xs.append("tlist (tlist tnat) (chunks %s %s)" % (cnat(o[2]), clist([cnat(i) for i in o[1]])))
-    return "(let c := %s in let pool := map (mk_item c) %s in L (playx (cc_defs c) %s pool [] %s ++ %s))" % (
-        ccfg, pool, mode, clist([_coq_opx(o) for o in main]), clist(xs))
+    cdef = "{| cc_names := %s; cc_defs := %s; cc_edge := %s |}" % (
+        clist([cN(NK(k)) for k in DEF_CFG["names"]]), clist([cN(I(d)) for d in DEF_CFG["defaults"]]), cN(EK(DEF_CFG["edge"])))
+    return "(let c := %s in let cdef := %s in let rpool := %s in let pool := map (mk_item c) rpool in L (playx (cc_defs c) %s pool [] %s ++ %s))" % (
+        ccfg, cdef, pool, mode, clist([_coq_opx(o) for o in main]), clist(xs))
 
 
 # ------------------------------------------------------------------ reference isomorphism (independent, brute force)
@@ -1183,7 +1183,12 @@ def oracle(case):
             state["assigned"] = [tuple(x) for x in t_after]
             return
         if k == "iso":
-            want = ref_iso(items[op[1]]["g"], items[op[2]]["g"], op[3] != "none", DEF_CFG if op[3] == "defaults" else cfg)
+            use_nm, use_em, use_def = _ISO_HOW[op[3]]
+            ncfg = cfg if use_nm else DEF_CFG if use_def else None
+            ecfg = cfg if use_em else DEF_CFG if use_def else None
+            want = ref_iso(items[op[1]]["g"], items[op[2]]["g"], True,
+                           {"names": ncfg["names"] if ncfg else [], "defaults": ncfg["defaults"] if ncfg else [],
+                            "edge": ecfg["edge"] if ecfg else "__no_edge_matcher__"})
             if o is not want:
                 fails.append(dict(clause="isomorphism", detail="graph_isomorphism(%d, %d, %s) = %r, reference %r" % (op[1], op[2], op[3], o, want)))
             return
@@ -2286,4 +2291,43 @@ def gen_cases(tier, rng):
                 if rng2.random() < 0.3:
                     a["bond_type"] = rng2.choice(["SINGLE", "DOUBLE"])
         c["kind"] += "+raw-extra"
+    # round 5: graph_isomorphism called directly under NON-default configurations: pairs that the configured matcher and the
+    # function's own defaults judge differently (charge / hcount / standard_order changed, attributes dropped)
+    for t in range(48 if quick else 300):
+        cfg = CFGS[4] if t % 3 == 0 else CFGS[t % len(CFGS)]          # every third case: edge attribute "standard_order"
+        g0 = _cfg_pool(rng2, [rng2.choice(small_corpus if rng2.random() < 0.5 else [g for g in synth if g["edges"]])], 1, cfg)[0]["g"]
+        for _, a in g0["nodes"]:
+            a.setdefault("charge", 0)
+            a.setdefault("hcount", 0)
+        variants = [_copy(g0), _relabelled(g0, rng2)]
+        for key, vals_ in (("charge", [0, 1, 2]), ("hcount", [0, 1, 2]), ("element", ["C", "N", "O"])):
+            h = _relabelled(g0, rng2) if rng2.random() < 0.5 else _copy(g0)
+            a = rng2.choice(h["nodes"])[1]
+            a[key] = rng2.choice([v for v in vals_ if v != a.get(key)])
+            variants.append(h)
+        if g0["edges"]:
+            for key, vals_ in (("standard_order", [0, 1, -1]), ("order", [1, 2, 3])):
+                h = _relabelled(g0, rng2) if rng2.random() < 0.5 else _copy(g0)
+                a = rng2.choice(h["edges"])[2]
+                a[key] = rng2.choice([v for v in vals_ if v != a.get(key)])
+                variants.append(h)
+        items = [{"g": h, "src": "near" if i > 1 else "relabel" if i else "dup"} for i, h in enumerate(variants)]
+        size = len(items)
+        _set_attrs(items, "none", True, rng2, cfg, "sig")
+        c = dict(kind="options/iso-call", attr_mode="none", invariant=True, items=items, ops=[], cfg=cfg,
+                 call=rng2.choice(["short", "pos", "kw"]), shared=rng2.random() < 0.5)
+        raw = [["gc_fit", list(range(size))]]
+        for j in range(1, size):
+            for how in rng2.sample(sorted(_ISO_HOW), 3):
+                raw.append(["iso", 0, j, how] if rng2.random() < 0.5 else ["iso", j, 0, how])
+        try:
+            c["ops"] = _finalize(c, raw)
+            rest.append(c)
+        except ValueError:
+            pass
+    # graph_isomorphism with only one matcher given, with use_defaults filling in the other, with both and use_defaults
+    for c in rest:
+        for op in c["ops"]:
+            if op[0] == "iso" and rng2.random() < 0.6:
+                op[3] = rng2.choice(["nm_only", "em_only", "nm_defaults", "em_defaults", "both_defaults", "defaults", "none"])
     return rest
